@@ -66,3 +66,13 @@ func UsesPackagePool() any {
 	pool.Put(v)
 	return v
 }
+
+// CutsAtRawOffset violates R13.1 RUNE-BOUNDARY when analysed as part of package
+// rag's rule set (the rule also scans this package): a size is used as a cut
+// position without snapping to a rune start.
+func CutsAtRawOffset(s string, n int) string {
+	if n >= len(s) {
+		return s
+	}
+	return s[:n]
+}
